@@ -100,10 +100,18 @@ func genContent(rt *rapid.T, o GenOpts, size int, poolSeed uint64, label string)
 		return []byte{}
 	}
 	if o.HighEntropyOnly {
+		if size >= BlockSize && rapid.IntRange(0, 5).Draw(rt, label+".neutral") == 0 {
+			// still high-entropy, but with block boundaries at which the rolling checksum stands still
+			return NeutralBlocks(rapid.Uint64().Draw(rt, label+".nseed"), size, BlockSize, byte(rapid.SampledFrom([]int{0x5a, 0, 0xff}).Draw(rt, label+".nbyte")))
+		}
 		return Bytes(rapid.Uint64().Draw(rt, label+".cseed"), size)
 	}
-	kind := rapid.IntRange(0, 10).Draw(rt, label+".ckind")
+	kind := rapid.IntRange(0, 11).Draw(rt, label+".ckind")
 	switch {
+	case kind == 11:
+		// high-entropy blocks arranged so that the rolling checksum does not move when a window
+		// slides onto a block boundary (see NeutralBlocks)
+		return NeutralBlocks(rapid.Uint64().Draw(rt, label+".nseed"), size, BlockSize, byte(rapid.SampledFrom([]int{0x5a, 0, 0xff}).Draw(rt, label+".nbyte")))
 	case kind == 10:
 		// runs of a constant byte (padding, tables): weak hashes with special values (0 for an even
 		// fill byte over a full block), windows that do not change while rolling
